@@ -273,6 +273,7 @@ type vc35World struct {
 	// the most recent message build ended empty although entries had been added
 	lastBuildEmptied bool
 	emptiedBuilds    int64
+	builds           []string // last message constructions, for the stall witness
 
 	senderInit atomic.Bool
 	resetCh    chan struct{}
@@ -394,10 +395,18 @@ func (m *vc35TapMsg) Cancel(k cid.Cid) int {
 // the lock (everything in it was cancelled or changed during construction).
 func (m *vc35TapMsg) Empty() bool {
 	e := m.BitSwapMessage.Empty()
+	nrem := 0
+	for _, n := range m.removed {
+		nrem += n
+	}
 	m.w.mu.Lock()
 	m.w.lastBuildEmptied = e && m.added > 0
 	if m.w.lastBuildEmptied {
 		m.w.emptiedBuilds++
+	}
+	m.w.builds = append(m.w.builds, fmt.Sprintf("[%d] build: %d entries added, %d removed by the re-check, empty=%v", m.w.seq.Add(1), m.added, nrem, e))
+	if len(m.w.builds) > 6 {
+		m.w.builds = m.w.builds[1:]
 	}
 	m.w.mu.Unlock()
 	return e
@@ -692,7 +701,9 @@ func (w *vc35World) quiesce() bool {
 					w.mq.peerWants.pending.Len(), w.mq.bcstWants.pending.Len(), w.mq.cancels.Len(), o1.msgs, o1.signal != 0)
 				w.mq.wllock.Unlock()
 				class := "stalled-pending-work"
+				d += "; run loop goroutine: " + vc35RunLoopStack()
 				w.mu.Lock()
+				d += fmt.Sprintf("; logical time now=%d; last constructions: %s", w.seq.Load(), strings.Join(w.builds, " | "))
 				if w.lastBuildEmptied {
 					// trigger of the known defect: sendMessage returns on an
 					// emptied message without looking at what is still pending
@@ -711,6 +722,28 @@ func (w *vc35World) quiesce() bool {
 			return true
 		}
 	}
+}
+
+// vc35RunLoopStack returns the frames of the goroutine(s) running runQueue.
+func vc35RunLoopStack() string {
+	buf := make([]byte, 1<<20)
+	buf = buf[:runtime.Stack(buf, true)]
+	var out []string
+	for _, g := range strings.Split(string(buf), "\n\n") {
+		if strings.Contains(g, ".runQueue(") {
+			var fr []string
+			for _, l := range strings.Split(g, "\n") {
+				if !strings.HasPrefix(l, "\t") {
+					fr = append(fr, l)
+				}
+			}
+			if len(fr) > 8 {
+				fr = fr[:8]
+			}
+			out = append(out, strings.Join(fr, " < "))
+		}
+	}
+	return fmt.Sprintf("%d found: %s", len(out), strings.Join(out, " || "))
 }
 
 func vc35Type(t pb.Message_Wantlist_WantType) string {
